@@ -58,7 +58,6 @@ def model_check(ctx):
     if ctx.thorough():
         ctx.tlc_mc("MC_MetaChain.tla", "MetaChain_thorough.cfg", timeout=1500)
         ctx.tlc_mc("MC_MetaChain.tla", "MetaChain_thorough3.cfg", timeout=1500)
-        ctx.tlc_mc("MC_MetaChain.tla", "MetaChain_thorough3b.cfg", timeout=1500)
         ctx.tlc_mc("MC_MetaChain.tla", "MetaChain_thorough3c.cfg", timeout=1500)
     # anti-vacuity: with the F7 behaviour (emptied flatten keeps the old chain) the model must fail
     ctx.tlc_mc("MC_MetaChain.tla", "MetaChain_dev_f7.cfg", timeout=300,
